@@ -505,3 +505,42 @@ def r10(ctx):
 
 
 RULES.append(("C10.R10", "T4-namesake", "a variation arm writes the object type of its own name (shared with C09.R15)", r10))
+
+
+def r11(ctx):
+    """'the value the application set arrives': (a) the event put into the buffer is the value handed to Database::update, and every
+    mode that produces an event (Force, Detect when the detector fires) also records that value as the point's last event; (b) a
+    class / unsolicited selection reports each event in the point's configured event variation - select_by_class resets the
+    per-event variation cell (a stale narrower variation left by an earlier explicit READ would saturate or drop the time)."""
+    prog = ctx.prog
+    bd = prog.body("details::database::Database::update")
+    sym = ctx.sym(bd)
+    ins = call_sites(bd, r"EventBuffer::insert$")
+    ctx.check(len(ins) == 1, "update:insert-site", "Database::update inserts one event", bd.where(line=bd.line))
+    for b in ins:
+        e = sym.call_expr(b.term)
+        v = e[2][3]
+        ctx.check(v in (("param", "value"), ("var", "value")), "update:event-is-the-new-value", "EventBuffer::insert(.., %s, ..)" % expr_str(v)[:50], bd.where(b.idx), bad_detail="the event buffered by Database::update is `%s`, not the value being set" % expr_str(v)[:80])
+    sb = prog.body("range::static_db::StaticDatabase::update")
+    ss = ctx.sym(sb)
+    ws = field_writes(sb, "last_event")
+    modes = set()
+    for b, si, st in ws:
+        ev = ss.rvalue_expr(st.rv)
+        ctx.check(mentions(ev, lambda s: s in (("param", "value"), ("var", "value"))), "update:last_event<-value", "last_event <- %s" % expr_str(ev)[:40], sb.where(b.idx))
+        for g in ctx.guards_at(sb, b.idx):
+            if g.kind == "is" and g.name in ("Force", "Detect") and mentions_field(g.a, "event_mode"):
+                modes.add(g.name)
+    ctx.check(modes == {"Force", "Detect"}, "update:last_event:both-modes", "Force and Detect both record the value as the last event (%s)" % sorted(modes), sb.where(line=sb.line), bad_detail="last_event is recorded under %s only: an event produced in the other mode leaves a stale reference value" % sorted(modes))
+    eb = prog.body("EventBuffer::select_by_class")
+    sites = []
+    for ch in [eb] + list(prog.children(eb)):
+        for b in call_sites(ch, r"Event::select_default_variation$"):
+            sites.append((ch, b))
+    ctx.check(len(sites) == 1, "select_by_class:default-variation", "select_by_class resets each selected event to its configured variation", eb.where(line=eb.line), bad_detail="select_by_class no longer calls select_default_variation: a variation chosen by an earlier explicit READ whose response was never confirmed is reused for class polls and unsolicited responses")
+    for ch, b in sites:
+        extra = [g for g in ctx.guards_at(ch, b.idx) if not (g.kind == "bool" and g.truth is True and mentions_call(g.a, r"::matches$"))]
+        ctx.check(not extra, "select_by_class:default-variation:every-match", "every event of a requested class gets it", ch.where(b.idx))
+
+
+RULES.append(("C10.R11", "T8/T3", "the buffered event is the value being set; class selections report in the configured event variation", r11))
